@@ -462,10 +462,11 @@ Proof. reflexivity. Qed.
 (* parseArgs                                                           *)
 (* ------------------------------------------------------------------ *)
 
-(* the token p is "K=v" (has_v) or "K" with an upper-case key free of '=' *)
+(* the token p is "K=v" with a non-empty v, or "K", with an upper-case key
+   free of '=' *)
 Definition tok_kv (p k v : bytes) : Prop :=
-  mem_byte "=" k = false /\ to_upper k = k
-  /\ ((mem_byte "=" v = false /\ p = k ++ "=" :: v) \/ (v = [] /\ p = k)).
+  mem_byte "=" k = false /\ to_upper_ascii k = k
+  /\ ((mem_byte "=" v = false /\ v <> [] /\ p = k ++ "=" :: v) \/ (v = [] /\ p = k)).
 
 Definition set_all (kvs m0 : list (bytes * bytes)) : list (bytes * bytes) :=
   fold_left (fun m kv => assoc_set (fst kv) (snd kv) m) kvs m0.
@@ -475,8 +476,9 @@ Lemma parse_args_go_toks ps : forall kvs m0,
   parse_args_go ps m0 = Some (set_all kvs m0).
 Proof.
   induction ps as [|p ps IH]; intros kvs m0 H; inversion H as [|? [k v] ? ? Hp Hr]; subst; [reflexivity|].
-  cbn [fst snd] in Hp. destruct Hp as (Hk & Hu & [[Hv ->]|[-> ->]]); cbn [parse_args_go].
+  cbn [fst snd] in Hp. destruct Hp as (Hk & Hu & [(Hv & Hne & ->)|[-> ->]]); cbn [parse_args_go].
   - rewrite split_byte_app by exact Hk. rewrite split_byte_single by exact Hv.
+    destruct v as [|v0 v]; [congruence|].
     rewrite Hu. cbn [set_all fold_left fst snd]. now apply IH.
   - rewrite split_byte_single by exact Hk. rewrite Hu. cbn [set_all fold_left fst snd]. now apply IH.
 Qed.
